@@ -38,3 +38,53 @@ def split(flow):
         r2.obligations = [o for o in r.obligations if is_flow(o) == flow]
         out.append(r2)
     return out
+
+
+def replay(prop, ob, max_cases=6):
+    """Replay of a refuted ledger / flow obligation on the real mechanism: the counter-model's privacy parameters (where they lie
+    in the property's range) are put into bounded-tier cases of the mechanism the obligation belongs to, and those are executed
+    on actual neighbouring datasets with the run-time ledger / record-replay harness.  reproduced = some clause fails."""
+    from fractions import Fraction
+    from ..bounded import dp_harness as H
+    fn = ob.function or ob.name
+    mech_name = 'mst' if 'mst.py' in fn else 'aim' if 'aim.py' in fn or 'mechanism.py' in fn else 'mwem' if 'mwem' in fn else \
+        'adagrid' if 'adaptive_grid' in fn else None
+    if mech_name is None:
+        return None
+
+    def val(name, lo, hi):
+        v = (ob.model or {}).get(name)
+        try:
+            x = float(Fraction(str(v)))
+        except (ValueError, ZeroDivisionError, TypeError):
+            return None
+        return x if lo <= x <= hi else None
+    over = {}
+    e, d = val('epsilon', 0.01, 10.0), val('delta', 1e-12, 0.5)
+    if e is not None:
+        over['epsilon'] = e
+    if d is not None:
+        over['delta'] = d
+    key = (prop.id, mech_name, tuple(sorted(over.items())))
+    if key in _replayed:
+        return dict(_replayed[key], same_run_as='an earlier obligation of the same mechanism with the same parameters')
+    cases = [c for c in H.gen_cases('quick', 4242) if c.get('mech') == mech_name or (mech_name == 'adagrid' and str(c.get('mech', '')).startswith('ada'))]
+    tried = []
+    for c in cases[:max_cases]:
+        c = dict(c, params=dict(c['params'], **over))
+        try:
+            res = prop.run_case(c)
+        except Exception as ex:
+            tried.append(dict(case_params=c['params'], error='%s: %s' % (type(ex).__name__, str(ex)[:200])))
+            continue
+        bad = [(cl, det) for cl, ok, det in res if not ok]
+        if bad:
+            _replayed[key] = dict(reproduced=True, mechanism=mech_name, parameters_from_counter_model=over, case=c, failing_clause=bad[0][0],
+                        observed={k: v for k, v in bad[0][1].items() if k in ('spent', 'budget', 'ratio', 'by_kind', 'accounting', 'no_finite_price', 'first_difference')})
+            return _replayed[key]
+        tried.append(dict(case_params=c['params'], clauses=[cl for cl, ok, _ in res]))
+    _replayed[key] = dict(reproduced=False, mechanism=mech_name, parameters_from_counter_model=over, tried=tried[:3])
+    return _replayed[key]
+
+
+_replayed = {}
